@@ -636,7 +636,7 @@ class Run:
                 return 2
 
             def run_cpu_batch(r):
-                return self.run_cpu(r[0], timeout=cfg.get("timeout", 600))
+                return self.run_cpu(r[0], timeout=min(cfg.get("timeout", 600), 180))
 
             with concurrent.futures.ThreadPoolExecutor(max_workers=min(NCPU, max(1, len(results)))) as ex:
                 cpus = list(ex.map(run_cpu_batch, results))
